@@ -63,6 +63,9 @@ pub trait WorldDriver: Sized {
     fn select_entity(raw: Raw) -> Option<(u8, Raw)>;
     fn select_direct(d: EntityDirectAny) -> Option<(u8, EntityDirectAny)>;
     fn select_archetype_from_direct(d: EntityDirectAny) -> Option<u8>;
+    /// `Some(description)` if one of the Select* conversions refuses `id` / `raw` with an error
+    /// other than `EcsError::InvalidEntityType` ("a runtime entity did not meet the expected type")
+    fn select_error_variants(id: u8, raw: Raw) -> Option<String>;
     /// typed conversions for archetype `a`: (try_from ok -> into_any raw, from_any panicked?)
     fn typed_roundtrip(a: usize, raw: Raw) -> TypedConv;
     fn typed_direct_roundtrip(a: usize, d: EntityDirectAny) -> TypedConvD;
@@ -960,7 +963,42 @@ macro_rules! arch_driver {
                         });
                     } i += 1; )+
                 }
-                BKind::CloneWorld => unreachable!("clone is world level"),
+                BKind::FindBorrowDirectS => {
+                    let k = Entity::<$A>::from_any(any(acc.key.expect("entity access needs a key")));
+                    if let Some(d) = w.$f.to_direct(k) {
+                        let mut i = 0usize;
+                        $( if i == col {
+                            ecs_find_borrow!(w, d, |e: &Entity<$A>, c: &$C| {
+                                body(BObs { raw: Some(e.to_raw()), vals: vec![c.get()] });
+                            });
+                        } i += 1; )+
+                    }
+                }
+                BKind::FindBorrowDirectM => {
+                    let k = any(acc.key.expect("entity access needs a key"));
+                    if let Some(d) = w.to_direct(k) {
+                        let mut i = 0usize;
+                        $( if i == col {
+                            ecs_find_borrow!(w, d, |e: &EntityAny, c: &mut $C, _t: &Entity<$A>| {
+                                let old = c.get();
+                                c.set(val);
+                                body(BObs { raw: Some(e.to_raw()), vals: vec![old] });
+                            });
+                        } i += 1; )+
+                    }
+                }
+                BKind::CloneWorld | BKind::CloneFromWorld => unreachable!("world level"),
+                BKind::CloneArch => {
+                    let c = w.$f.clone();
+                    drop(c);
+                    body(BObs::default());
+                }
+                BKind::CloneFromArch => {
+                    let mut dst = <$A>::with_capacity(w.$f.capacity());
+                    dst.clone_from(&w.$f);
+                    drop(dst);
+                    body(BObs::default());
+                }
             }
         }
 
@@ -1093,6 +1131,15 @@ macro_rules! world_driver {
                     body($crate::types::BObs::default());
                     return;
                 }
+                if acc.kind == $crate::types::BKind::CloneFromWorld {
+                    let n = <Self as $crate::driver::WorldDriver>::archs().len();
+                    let caps: Vec<usize> = (0..n).map(|a| <Self as $crate::driver::WorldDriver>::capacity(self, a)).collect();
+                    let mut dst = <Self as $crate::driver::WorldDriver>::construct($crate::types::Ctor::WithCapacity, &caps);
+                    dst.clone_from(self);
+                    drop(dst);
+                    body($crate::types::BObs::default());
+                    return;
+                }
                 match acc.arch { $( $i => $m::baccess(self, acc, body), )+ _ => unreachable!() }
             }
             fn find_alternating(w1: &mut Self, w2: &mut Self, a: usize, borrow: bool, key: $crate::types::Key) -> (Option<$crate::types::Obs>, usize) {
@@ -1110,7 +1157,9 @@ macro_rules! world_driver {
             fn world_events(&self) -> (Vec<$crate::types::Raw>, Vec<$crate::types::Raw>, Option<String>) {
                 let (c, e1) = $crate::util::drain_exact(self.iter_created());
                 let (d, e2) = $crate::util::drain_exact(self.iter_destroyed());
-                (c, d, e1.or(e2))
+                let e3 = $crate::util::adaptors_agree(|| self.iter_created(), &c);
+                let e4 = $crate::util::adaptors_agree(|| self.iter_destroyed(), &d);
+                (c, d, e1.or(e2).or(e3).or(e4))
             }
             #[cfg(not(feature = "events"))]
             fn world_events(&self) -> (Vec<$crate::types::Raw>, Vec<$crate::types::Raw>, Option<String>) { (Vec::new(), Vec::new(), None) }
@@ -1145,6 +1194,19 @@ macro_rules! world_driver {
                     $( Ok(SelectEntityDirect::$A(e)) => Some(SelectArchetype::from(e).archetype_id()), )+
                     Err(_) => None,
                 }
+            }
+            fn select_error_variants(id: u8, raw: $crate::types::Raw) -> Option<String> {
+                use gecs::error::EcsError;
+                if let Err(e) = SelectArchetype::try_from(id) {
+                    if e != EcsError::InvalidEntityType { return Some(format!("SelectArchetype::try_from({}u8) fails with {:?}", id, e)); }
+                }
+                if let Err(e) = SelectArchetype::try_from($crate::types::any(raw)) {
+                    if e != EcsError::InvalidEntityType { return Some(format!("SelectArchetype::try_from(EntityAny {:?}) fails with {:?}", raw, e)); }
+                }
+                if let Err(e) = SelectEntity::try_from($crate::types::any(raw)) {
+                    if e != EcsError::InvalidEntityType { return Some(format!("SelectEntity::try_from({:?}) fails with {:?}", raw, e)); }
+                }
+                None
             }
             fn typed_roundtrip(a: usize, raw: $crate::types::Raw) -> $crate::driver::TypedConv {
                 match a { $( $i => $m::typed_roundtrip(raw), )+ _ => unreachable!() }
